@@ -27,7 +27,10 @@ Acc == [ok |-> TRUE]
 \* r.out \in {"ok", "raise"}; r.jp: the exception derives from JSONPathError
 VCompile(r) ==
     LET cv == CompileVerdict(r.q, RegOf(r), LoOf(r), HiOf(r))
-    IN  IF r.out = "raise" /\ ~r.jp THEN Rej("C13 compile raised a non-JSONPathError", <<r.cls>>)
+    IN  IF Has(r, "strok") /\ ~r.strok THEN Rej("C13 the string form of the error can not be produced", <<r.cls>>)
+        ELSE IF Has(r, "timeout") /\ r.timeout THEN Rej("C13 compile did not terminate within the time limit", <<>>)
+        ELSE IF Has(r, "ncalls") /\ r.ncalls # 0 THEN Rej("C05 a function body ran during compile()", <<r.ncalls>>)
+        ELSE IF r.out = "raise" /\ ~r.jp THEN Rej("C13 compile raised a non-JSONPathError", <<r.cls>>)
         ELSE IF cv.v = "accept" /\ r.out # "ok" THEN Rej("C03 valid query rejected", <<r.cls>>)
         ELSE IF cv.v = "reject" /\ r.out = "ok" THEN
             IF cv.why = "syntax" THEN Rej("C04 string outside the grammar accepted", <<cv.msg, cv.at>>)
@@ -45,6 +48,7 @@ VFind(r) ==
                  ELSE IF r.out # "ok" /\ r.stage = "compile" THEN
                      IF r.jp THEN Rej("C03 valid query rejected", <<r.cls>>)
                      ELSE Rej("C13 compile raised a non-JSONPathError", <<r.cls>>)
+                 ELSE IF r.out # "ok" /\ ~r.jp THEN Rej("C13 find raised a non-JSONPathError", <<r.cls>>)
                  ELSE IF r.out # "ok" THEN Rej("find raised on a valid query", <<r.cls>>)
                  ELSE LET nl   == Find(segs, r.doc, reg)
                           locs == [k \in 1..Len(nl) |-> nl[k].loc]
@@ -124,8 +128,16 @@ VStr(r) ==
                                THEN Rej("C12 str() text selects different nodes", <<>>)
                           ELSE Acc
 
+(* ---- totality of evaluation on arbitrary compiled queries (C13) ------------- *)
+VTotal(r) ==
+    IF Has(r, "timeout") /\ r.timeout THEN Rej("C13 evaluation did not terminate within the time limit", <<>>)
+    ELSE IF r.out = "raise" /\ ~r.jp THEN Rej("C13 find raised a non-JSONPathError", <<r.cls>>)
+    ELSE IF Has(r, "strok") /\ ~r.strok THEN Rej("C13 the string form of the error can not be produced", <<r.cls>>)
+    ELSE Acc
+
 Verdict(r) ==
     CASE r.op = "compile" -> VCompile(r)
+      [] r.op = "total"   -> VTotal(r)
       [] r.op = "errpos"  -> VErrPos(r)
       [] r.op = "str"     -> VStr(r)
       [] r.op = "find"    -> VFind(r)
